@@ -12,139 +12,161 @@ use crate::vsrc::Src;
 use fuel_core_services::seqlock::SeqLock;
 use std::sync::atomic::{AtomicU64, Ordering};
 
-pub type Pair = (u64, u64);
+macro_rules! seqlock_env {
+    ($m:ident, $half:ty) => {
+    pub mod $m {
+        use super::*;
+        pub type Half = $half;
+                pub type Pair = ($half, $half);
 
-/// Environment writer: W writes of equal-halves values v[0], v[1].
-pub struct Env {
-    pub seq: *const AtomicU64,
-    pub data: *mut Pair,
-    pub pc: u32,       // steps taken so far (4 per write)
-    pub total: u32,    // 4 * number of writes
-    pub vals: [u64; 2],
-    pub enabled: bool,
-    pub budget: u32,   // remaining scheduling points at which the writer may move
-}
-pub static mut ENV: Env = Env { seq: std::ptr::null(), data: std::ptr::null_mut(), pc: 0, total: 0, vals: [0; 2], enabled: false, budget: 0 };
+        /// Environment writer: W writes of equal-halves values v[0], v[1].
+        pub struct Env {
+            pub seq: *const AtomicU64,
+            pub data: *mut Pair,
+            pub pc: u32,       // steps taken so far (4 per write)
+            pub total: u32,    // 4 * number of writes
+            pub vals: [Half; 2],
+            pub enabled: bool,
+            pub budget: u32,   // remaining scheduling points at which the writer may move
+            pub maxstep: u32,  // writer steps per scheduling point
+        }
+        pub static mut ENV: Env = Env { seq: std::ptr::null(), data: std::ptr::null_mut(), pc: 0, total: 0, vals: [0; 2], enabled: false, budget: 0, maxstep: 4 };
 
-/// One writer step on the real lock memory.
-unsafe fn env_step() {
-    unsafe {
-        let e = &mut *std::ptr::addr_of_mut!(ENV);
-        let w = (e.pc / 4) as usize;
-        match e.pc % 4 {
-            0 | 3 => {
-                let s = &*e.seq;
-                let cur = *s.as_ptr();
-                *s.as_ptr() = cur + 1;
+        /// One writer step on the real lock memory.
+        unsafe fn env_step() {
+            unsafe {
+                let e = &mut *std::ptr::addr_of_mut!(ENV);
+                let w = (e.pc / 4) as usize;
+                match e.pc % 4 {
+                    0 | 3 => {
+                        let s = &*e.seq;
+                        let cur = *s.as_ptr();
+                        *s.as_ptr() = cur + 1;
+                    }
+                    1 => (*e.data).0 = e.vals[w],
+                    _ => (*e.data).1 = e.vals[w],
+                }
+                e.pc += 1;
             }
-            1 => (*e.data).0 = e.vals[w],
-            _ => (*e.data).1 = e.vals[w],
         }
-        e.pc += 1;
-    }
-}
 
-/// At a scheduling point the writer takes 0..=4 further steps.
-#[cfg(kani)]
-pub fn env_run() {
-    unsafe {
-        let e = &mut *std::ptr::addr_of_mut!(ENV);
-        if !e.enabled {
-            return;
+        /// At a scheduling point the writer takes 0..=4 further steps.
+        #[cfg(kani)]
+        pub fn env_run() {
+            unsafe {
+                let e = &mut *std::ptr::addr_of_mut!(ENV);
+                if !e.enabled {
+                    return;
+                }
+                if e.budget == 0 {
+                    // fairness: a writer that started a write finishes it
+                    let mut i = 0;
+                    while i < 3 {
+                        if e.pc % 4 != 0 {
+                            env_step();
+                        }
+                        i += 1;
+                    }
+                    return;
+                }
+                e.budget -= 1;
+                if e.maxstep == 1 {
+                    // stalling writer: at most one step per scheduling point
+                    let go: bool = kani::any();
+                    if go && e.pc < e.total {
+                        env_step();
+                    }
+                    return;
+                }
+                let n: u32 = kani::any();
+                kani::assume(n <= e.maxstep);
+                let mut i = 0;
+                while i < 4 {
+                    if i < n && e.pc < e.total {
+                        env_step();
+                    }
+                    i += 1;
+                }
+            }
         }
-        if e.budget == 0 {
-            // fairness: a writer that started a write finishes it
-            let mut i = 0;
-            while i < 3 {
-                if e.pc % 4 != 0 {
+
+        #[cfg(kani)]
+        pub fn load_stub(a: &AtomicU64, _o: Ordering) -> u64 {
+            env_run();
+            unsafe { *a.as_ptr() }
+        }
+        #[cfg(kani)]
+        pub fn fence_stub(_o: Ordering) {
+            env_run();
+        }
+        #[cfg(kani)]
+        pub fn yield_stub() {
+            env_run();
+        }
+
+        /// W writes race with one read. The reader may be made to retry; it returns
+        /// within the scheduling budget because the writer runs out of steps.
+        pub fn reader<S: Src, const W: u32, const BUDGET: u32, const MAXSTEP: u32>(s: &mut S) {
+            let init = s.u64() as Half;
+            let v0 = s.u64() as Half;
+            let v1 = s.u64() as Half;
+            vassume!(init != v0 && v0 != v1 && init != v1);
+            let (_writer, reader) = unsafe { SeqLock::new((init, init)) };
+            let (seq, data) = reader.verif_parts();
+            let pre_steps = s.u32(); // writer progress before the read starts
+            vassume!(pre_steps <= 4 * W);
+            unsafe {
+                let e = &mut *std::ptr::addr_of_mut!(ENV);
+                e.seq = seq as *const AtomicU64;
+                e.data = data;
+                e.pc = 0;
+                e.total = 4 * W;
+                e.vals = [v0, v1];
+                e.enabled = false;
+                e.budget = 0;
+                let mut i = 0;
+                while i < 4 * W {
+                    if i < pre_steps {
+                        env_step();
+                    }
+                    i += 1;
+                }
+                // a read that starts in the middle of a write can only return after that
+                // write finished: give the writer enough scheduling points
+                e.enabled = true;
+                e.budget = BUDGET;
+                e.maxstep = MAXSTEP;
+            }
+            let completed_before = pre_steps / 4;
+            #[cfg(not(kani))]
+            unsafe {
+                // native replay: no concurrent writer; finish the write in progress
+                while ENV.pc % 4 != 0 {
                     env_step();
                 }
-                i += 1;
             }
-            return;
-        }
-        e.budget -= 1;
-        let n: u32 = kani::any();
-        kani::assume(n <= 4);
-        let mut i = 0;
-        while i < 4 {
-            if i < n && e.pc < e.total {
-                env_step();
+            let (a, b) = reader.read();
+            unsafe {
+                (*std::ptr::addr_of_mut!(ENV)).enabled = false;
             }
-            i += 1;
+            vassert!(a == b, "C42 a reader never returns an intermediate state of a write (torn value)");
+            let idx: u32 = if a == init { 0 } else if a == v0 { 1 } else if a == v1 && W >= 2 { 2 } else { 99 };
+            vassert!(idx != 99, "C42 a reader returns a value that some writer completely wrote");
+            vassert!(idx >= completed_before, "C42 a reader never returns a value older than the last write completed before the read started");
+            let done_now = unsafe { (*std::ptr::addr_of!(ENV)).pc } / 4;
+            vassert!(idx <= done_now + 1, "C42 a reader never returns a value that was not written yet");
+            vreach!();
+            vreach!(idx == W, "C42 reading the last written value reachable");
+            std::mem::forget(reader);
+            std::mem::forget(_writer);
         }
-    }
-}
 
-#[cfg(kani)]
-pub fn load_stub(a: &AtomicU64, _o: Ordering) -> u64 {
-    env_run();
-    unsafe { *a.as_ptr() }
-}
-#[cfg(kani)]
-pub fn fence_stub(_o: Ordering) {
-    env_run();
-}
-#[cfg(kani)]
-pub fn yield_stub() {
-    env_run();
-}
-
-/// W writes race with one read. The reader may be made to retry; it returns
-/// within the scheduling budget because the writer runs out of steps.
-pub fn reader<S: Src, const W: u32>(s: &mut S) {
-    let init = s.u64();
-    let v0 = s.u64();
-    let v1 = s.u64();
-    vassume!(init != v0 && v0 != v1 && init != v1);
-    let (_writer, reader) = unsafe { SeqLock::new((init, init)) };
-    let (seq, data) = reader.verif_parts();
-    let pre_steps = s.u32(); // writer progress before the read starts
-    vassume!(pre_steps <= 4 * W);
-    unsafe {
-        let e = &mut *std::ptr::addr_of_mut!(ENV);
-        e.seq = seq as *const AtomicU64;
-        e.data = data;
-        e.pc = 0;
-        e.total = 4 * W;
-        e.vals = [v0, v1];
-        e.enabled = false;
-        e.budget = 0;
-        let mut i = 0;
-        while i < 4 * W {
-            if i < pre_steps {
-                env_step();
-            }
-            i += 1;
-        }
-        // a read that starts in the middle of a write can only return after that
-        // write finished: give the writer enough scheduling points
-        e.enabled = true;
-        e.budget = 8;
     }
-    let completed_before = pre_steps / 4;
-    #[cfg(not(kani))]
-    unsafe {
-        // native replay: no concurrent writer; finish the write in progress
-        while ENV.pc % 4 != 0 {
-            env_step();
-        }
-    }
-    let (a, b) = reader.read();
-    unsafe {
-        (*std::ptr::addr_of_mut!(ENV)).enabled = false;
-    }
-    vassert!(a == b, "C42 a reader never returns an intermediate state of a write (torn value)");
-    let idx: u32 = if a == init { 0 } else if a == v0 { 1 } else if a == v1 && W >= 2 { 2 } else { 99 };
-    vassert!(idx != 99, "C42 a reader returns a value that some writer completely wrote");
-    vassert!(idx >= completed_before, "C42 a reader never returns a value older than the last write completed before the read started");
-    let done_now = unsafe { (*std::ptr::addr_of!(ENV)).pc } / 4;
-    vassert!(idx <= done_now + 1, "C42 a reader never returns a value that was not written yet");
-    vreach!();
-    vreach!(idx == W, "C42 reading the last written value reachable");
-    std::mem::forget(reader);
-    std::mem::forget(_writer);
+    };
 }
+seqlock_env!(h64, u64);
+seqlock_env!(h32, u32);
+pub use h64::Pair;
 
 /// The real writer's memory effects, in order: sequence+1, data, sequence+1,
 /// leaving sequence even and increased by two.
@@ -215,20 +237,25 @@ mod proofs {
     }
 
     macro_rules! reader_proof {
-        ($name:ident, $w:expr, $unwind:expr) => {
+        ($name:ident, $m:ident, $w:expr, $budget:expr, $maxstep:expr, $unwind:expr) => {
             #[kani::proof]
             #[kani::stub(std::rt::thread_cleanup, crate::noop)]
-            #[kani::stub(std::sync::atomic::Atomic::<u64>::load, load_stub)]
-            #[kani::stub(std::sync::atomic::fence, fence_stub)]
-            #[kani::stub(std::thread::yield_now, yield_stub)]
+            #[kani::stub(std::sync::atomic::Atomic::<u64>::load, $m::load_stub)]
+            #[kani::stub(std::sync::atomic::fence, $m::fence_stub)]
+            #[kani::stub(std::thread::yield_now, $m::yield_stub)]
             #[kani::unwind($unwind)]
             fn $name() {
-                reader::<_, $w>(&mut KaniSrc);
+                $m::reader::<_, $w, $budget, $maxstep>(&mut KaniSrc);
             }
         };
     }
-    reader_proof!(c42_reader_w1, 1, 9);
-    reader_proof!(c42_reader_w2, 2, 9);
+    // T = (u64, u64)
+    reader_proof!(c42_reader_w1, h64, 1, 8, 4, 9);
+    reader_proof!(c42_reader_w2, h64, 2, 8, 4, 9);
+    // T = (u32, u32): a value that fits in one machine word
+    reader_proof!(c42_reader32_w1, h32, 1, 8, 4, 9);
+    // a writer that stalls in the middle of a write for up to 140 reader operations
+    reader_proof!(c42_reader_stall_w1, h64, 1, 140, 1, 80);
 
     #[kani::proof]
     #[kani::stub(std::rt::thread_cleanup, crate::noop)]
